@@ -2300,6 +2300,11 @@ func builtinAppendBytes(env *LEnv, args *LVal) *LVal {
 	// Clamped so this append cannot write into lbytes' spare capacity
 	// (issue #373).  append-bytes! is the mutating variant.
 	b := clampCapBytes(lbytes.Bytes())
+	if n := byteseq.Len(); n > 0 {
+		if msg := env.Runtime.CheckAlloc(len(b) + n); msg != "" {
+			return env.Errorf("%s", msg)
+		}
+	}
 	switch byteseq.Type {
 	case LString:
 		b = append(b, byteseq.Str...) //elps:mutates deliberate go-slice-style append: the result may share lbytes' backing so chained appends amortize, mirroring append 'vector (see #371 for the slice-retained-capacity caveat)
@@ -3149,6 +3154,9 @@ func builtinFormatString(env *LEnv, args *LVal) *LVal {
 			buf.WriteString(val.Str)
 		} else {
 			buf.WriteString(val.String())
+		}
+		if msg := env.Runtime.CheckAlloc(buf.Len()); msg != "" {
+			return env.Errorf("%s", msg)
 		}
 
 		i = closeIdx + 1
